@@ -98,6 +98,22 @@ def tier_p(prop, cfg, tier, jobs):
     load_sidecars(mods)
     keys = [k for k, c in api.CONTRACTS.items() if prop in c.props and not c.trusted]
     lemmas = [k for k, l in api.LEMMAS.items() if prop in l.props]
+    # every lemma a selected function (or a selected lemma) instantiates is proved in this run too
+    def _used(obj):
+        names = list(getattr(obj, "uses", []) or []) + [n for n, _ in (getattr(obj, "calls", []) or [])]
+        for lst in (getattr(obj, "calls_func", {}) or {}).values():
+            names += [n for n, _ in lst]
+        for sp in (getattr(obj, "loops", {}) or {}).values():
+            for kk in ("calls", "entry_calls", "exit_calls"):
+                names += [n for n, _ in sp.get(kk, [])]
+        return names
+    todo = [api.CONTRACTS[k] for k in keys] + [api.LEMMAS[k] for k in lemmas]
+    while todo:
+        o_ = todo.pop()
+        for n in _used(o_):
+            if n in api.LEMMAS and n not in lemmas:
+                lemmas.append(n)
+                todo.append(api.LEMMAS[n])
     trusted = [f"{k}: {c.trusted}" for k, c in api.CONTRACTS.items() if c.trusted and prop in c.props]
     axioms = [f"axiom {a.name}: {a.expr} ({a.reason})" for a in api.AXIOMS]
     shards = {k: cfg.get("shards", {}).get(k, 1) for k in keys}
